@@ -96,6 +96,19 @@ def b_int(ex, x=0, base=None):
         if isinstance(x, SStr):
             if len(x.parts) == 1 and isinstance(x.parts[0], Fmt) and base == 16 and x.parts[0].spec.lower().endswith('x'):
                 return x.parts[0].value      # axiom A2
+            if base == 16 and x.parts and all((isinstance(p, Fmt) and p.spec.lower() == '02x') or (isinstance(p, str) and len(p) % 2 == 0 and p != '') for p in x.parts):
+                # A2 for a run of fixed-width two-digit tokens: the big-endian integer of the bytes
+                total = 0
+                for p in x.parts:
+                    if isinstance(p, Fmt):
+                        total = (total << 8) + p.value
+                    else:
+                        try:
+                            for b in bytes.fromhex(p):
+                                total = (total << 8) + b
+                        except ValueError as e:
+                            raise PyRaise(make_exc('ValueError', str(e)))
+                return total
             raise Unsupported(f'int({x!r}, {base})')
         if hasattr(x, 'sym_int'):
             return x.sym_int(ex, base)
@@ -630,6 +643,8 @@ def m_str_endswith(ex, s, p):
         return s.endswith(p)
     if s.parts and isinstance(s.parts[-1], str) and len(s.parts[-1]) >= len(p):
         return s.parts[-1].endswith(p)
+    if s.parts and isinstance(s.parts[-1], Atom) and s.parts[-1].ends == 'digit' and p and not p[-1].isdigit():
+        return False
     raise Unsupported(f'endswith on {s!r}')
 
 
@@ -809,3 +824,9 @@ def m_set_add(ex, s, x):
 
 SET_METHODS = {'add': m_set_add}
 PYSET_METHODS = {'add': lambda ex, s, x: s.add(ex.dict_key(x))}
+
+
+from . import timeval as _tv  # noqa: E402
+EXT_HOOKS['datetime.timedelta'] = Builtin('timedelta', _tv.timedelta)
+EXT_HOOKS['datetime.datetime.now'] = Builtin('datetime.now', _tv.now)
+EXT_HOOKS['datetime.datetime.strptime'] = Builtin('datetime.strptime', _tv.strptime)
